@@ -50,6 +50,11 @@ func prepare(e hx.Entry, b *simbmc.BMC, draw int) *hx.Call {
 
 // runCommand executes one scripted SendCommand and compares with the model.
 func runCommand(suite ref.Suite, inSession bool, cmdName string, script []hx.Outcome, seed uint64, draw int) string {
+	return runCommandCC(suite, inSession, cmdName, script, seed, draw, hx.FinalCCValue)
+}
+
+// runCommandCC is runCommand with the completion code of final-cc replies chosen.
+func runCommandCC(suite ref.Suite, inSession bool, cmdName string, script []hx.Outcome, seed uint64, draw int, finalCode byte) string {
 	c := hx.Creds{User: "admin", Password: []byte("pw"), Priv: 4, Suite: suite, Seed: seed}
 	w := hx.NewWorldFor(c, true)
 	var cn conn = w.T
@@ -62,7 +67,7 @@ func runCommand(suite ref.Suite, inSession bool, cmdName string, script []hx.Out
 		cn, bs = s, w.BMC.ActiveSession()
 	}
 	call := prepare(hx.CatalogueEntry(cmdName), w.BMC, draw)
-	sc := &hx.Scripter{Script: script}
+	sc := &hx.Scripter{Script: script, FinalCode: finalCode}
 	sc.Install(w.BMC)
 	start := w.Net.Sends
 	terminal := false
@@ -81,7 +86,10 @@ func runCommand(suite ref.Suite, inSession bool, cmdName string, script []hx.Out
 	sends := w.Net.Sends - start
 	ev.Eval()
 	exp := hx.Model(script, inSession, call.HasBody)
-	where := fmt.Sprintf("inSession=%v %s %s", inSession, call.Name, hx.ScriptString(script))
+	if exp.HasCode && exp.Code == hx.FinalCCValue {
+		exp.Code = finalCode
+	}
+	where := fmt.Sprintf("inSession=%v %s %s (final code %#x)", inSession, call.Name, hx.ScriptString(script), finalCode)
 	if sends != exp.Transmissions {
 		return fmt.Sprintf("%s: %d transmissions, the documented contract gives %d (err=%v)", where, sends, exp.Transmissions, err)
 	}
@@ -172,6 +180,30 @@ func TestEnumeratedCommands(t *testing.T) {
 	ev.Label("enumeration-complete")
 }
 
+// TestEveryFinalCode: every completion code other than the two temporary ones
+// (0xC0, 0xC3) ends the retries and is returned, alone and after temporary codes.
+func TestEveryFinalCode(t *testing.T) {
+	suites := hx.Suites12()
+	dom := ev.Domain("final completion code (1..255 except 0xC0, 0xC3) x session-less/in-session", 253*2)
+	n := 0
+	for _, inSession := range []bool{false, true} {
+		for cc := 1; cc <= 255; cc++ {
+			if cc == 0xC0 || cc == 0xC3 {
+				continue
+			}
+			n++
+			script := [][]hx.Outcome{{hx.FinalCC}, {hx.Busy, hx.FinalCC}, {hx.TimeoutCC, hx.Busy, hx.FinalCC}}[(cc+int(ev.Seed))%3]
+			cmd := cmdNames[(cc+n)%len(cmdNames)]
+			if msg := runCommandCC(suites[(n+int(ev.Seed))%len(suites)], inSession, cmd, script, uint64(ev.Seed)*31337+uint64(n), n+int(ev.Seed), byte(cc)); msg != "" {
+				ev.Violation("TestEveryFinalCode", map[string]any{"inSession": inSession, "command": cmd, "script": hx.ScriptString(script), "code": cc}, msg)
+				t.Fatalf("%s", msg)
+			}
+			dom.Visit(n - 1)
+		}
+	}
+	ev.Label("every-final-code")
+}
+
 func TestRandomCommands(t *testing.T) {
 	all := []hx.Outcome{hx.Final, hx.FinalCC, hx.FinalTruncated, hx.Busy, hx.TimeoutCC, hx.Garbage, hx.BadSig, hx.Lost}
 	ev.Check(t, "TestRandomCommands", ev.PickN(1500, 600000), func(t *rapid.T) {
@@ -190,7 +222,7 @@ func TestRandomCommands(t *testing.T) {
 			}
 		}
 		cmd := rapid.SampledFrom(cmdNames).Draw(t, "command")
-		suite := rapid.SampledFrom(hx.Suites9()).Draw(t, "suite")
+		suite := rapid.SampledFrom(hx.Suites12()).Draw(t, "suite")
 		if msg := runCommand(suite, inSession, cmd, sc, rapid.Uint64().Draw(t, "seed"), rapid.IntRange(0, 1<<20).Draw(t, "draw")); msg != "" {
 			t.Fatalf("%s", msg)
 		}
@@ -447,5 +479,5 @@ func TestUDPLostThenAnswered(t *testing.T) {
 }
 
 func TestCoverage(t *testing.T) {
-	ev.RequireLabels(t, 1, "enumeration-complete", "handshake-enumeration-complete", "retried:inSession=true", "retried:inSession=false", "retried:handshake", "retried:udp")
+	ev.RequireLabels(t, 1, "enumeration-complete", "every-final-code", "handshake-enumeration-complete", "retried:inSession=true", "retried:inSession=false", "retried:handshake", "retried:udp")
 }
